@@ -987,7 +987,7 @@ def img_cases(ctx):
             c["ops"] = c["ops"] + [["close"], ["next"], ["seek", 0]]
     cases += [late_case(src_rng, i) for i in range(30 if ctx.quick else 400)]
     env_rng = random.Random(ctx.seed * 1000003 + 12)
-    cases += [env_case(env_rng, i) for i in range(45 if ctx.quick else 600)]
+    cases += [env_case(env_rng, i) for i in range(36 if ctx.quick else 600)]
     return img_corpus() + env_corpus() + cases
 
 
